@@ -212,6 +212,10 @@ fn family<T: UniPar>(checks: &mut Vec<Box<dyn Check>>, q: bool) {
         let k = if T::ORDER == 0 { 5 } else { 4 };
         checks.push(par::<T>(a, k, if q { 5 } else { 6 }, 0));
         checks.push(par::<T>(a, 3, if q { 3 } else { 4 }, 2));
+        if !q {
+            // 731 split trees over 7 items, 3-letter alphabet
+            checks.push(par::<T>(a, 3, 7, 0));
+        }
     }
 }
 
